@@ -699,6 +699,22 @@ func selftestC08(r *Rng, gens map[string]*gen) *stFile {
 func runSelftest(repo, out string, gens map[string]*gen) {
 	r := NewRng(20260928)
 	files := append([]*stFile{selftestGoLib(r)}, selftestTargets(r, gens)...)
+	sg, sf := selftestSynth(r)
+	files = append(files, sf)
+	if sg != nil {
+		for _, it := range sg.items {
+			if it.kind == "func" {
+				if it.status == "ok" {
+					fmt.Println("golite-selftest: synth ok " + it.label)
+				} else {
+					fmt.Println("golite-selftest: synth refused " + it.label + ": " + it.reason)
+				}
+			}
+		}
+		if err := os.WriteFile(filepath.Join(out, "T00_Gen.v"), []byte(sg.render()), 0o644); err != nil {
+			fmt.Println("golite-selftest: cannot write T00_Gen.v:", err)
+		}
+	}
 	total := 0
 	for _, f := range files {
 		shards, err := f.write(out)
